@@ -71,7 +71,21 @@ def run(ctx):
             evs = hnswfam.history_of(trace, 60)
             ctx.sample({"log_and_branches": [{k: e.get(k) for k in ("ev", "r", "idx", "cut", "from", "op", "id", "pt", "res", "rerr")} for e in evs[:14]]})
             # binding self-test on the first log: corrupt a replica's contents / drop an entry on a branch
-            good = [json.dumps(e) + "\n" for e in hnswfam.history_of(trace, 200)]
+            good, cur = None, []
+            with open(trace) as tf:
+                for ln, line in enumerate(tf):
+                    if is_reset(line) and cur:
+                        evs_ = [json.loads(x) for x in cur]
+                        if any(e["ev"] == "apply" and e["r"] == "B" and e["st"]["live"] for e in evs_) and \
+                           any(e["ev"] == "apply" and e["r"] == "A" and e["res"] == "ok" for e in evs_):
+                            good = cur
+                            break
+                        cur = []
+                    cur.append(line)
+                    if ln > 200000:
+                        break
+            if good is None:
+                raise vlib.NoVerdict("binding self-test: no log with a populated second replica among the first histories")
             st = {}
             mut = [json.loads(x) for x in good]
             for e in mut:
